@@ -856,7 +856,7 @@ int main(int argc, char **argv) {
     // Handle .s
     if (type == FILE_ASM) {
       // Nothing is preprocessed or compiled in an assembler file.
-      if (opt_S || opt_E)
+      if (opt_S || opt_E || opt_M)
         continue;
 
       if (opt_c) {
@@ -902,9 +902,9 @@ int main(int argc, char **argv) {
     continue;
   }
 
-  // -c, -S and -E stop before the link step; objects and libraries
+  // -c, -S, -E and -M stop before the link step; objects and libraries
   // given on the command line are then not used.
-  if (ld_args.len > 0 && !opt_c && !opt_S && !opt_E)
+  if (ld_args.len > 0 && !opt_c && !opt_S && !opt_E && !opt_M)
     run_linker(&ld_args, opt_o ? opt_o : "a.out");
   return 0;
 }
